@@ -63,6 +63,14 @@ Definition inst_dec_top (ty : string) (bs : bytes) : dres (val * N * dstate) :=
   | None => Err
   end.
 
+(* the specification of Decode (Denote.v) on the same schema *)
+Require Import Denote.
+Definition inst_spec_decode (ty : string) (bs : bytes) : option (val * N) :=
+  match inst_T ty with
+  | Some (tag, fl) => spec_decode ty tag fl bs
+  | None => None
+  end.
+
 Definition inst_normalize (v : val) : val :=
   match v with
   | VStruct ty vs | VPtr (VStruct ty vs) =>
